@@ -112,36 +112,38 @@ def extract(ir):
             return ["valias", fref_index[id(f.read_transform.field_reference)]]
         return ["vother"]
 
-    def own(t, scope, file):
-        key = scope + [t.name.name.text]
-        if t.has_field("enumeration"):
-            for v in t.enumeration.value:
-                values.append({"scope": key, "name": v.name.name.text,
-                               "loc": L.add(file, v.name.name.source_location)})
-        if t.has_field("structure"):
-            for f in t.structure.field:
-                ab = None
-                if f.has_field("abbreviation"):
-                    ab = [f.abbreviation.text, L.add(file, f.abbreviation.source_location)]
-                fields.append({"scope": key, "name": f.name.name.text,
-                               "loc": L.add(file, f.name.name.source_location), "abbr": ab,
-                               "thisLoc": L.add(file, None), "shape": shape_of(f)})
-        for p in (t.runtime_parameter or []):
-            params.append({"scope": key, "name": p.name.name.text,
-                           "loc": L.add(file, p.name.name.source_location)})
+    def items(kind):
+        """definitions of one kind in the order the corresponding pass visits them"""
+        acts = {ir_data.Module: _a_module, ir_data.TypeDefinition: _a_type}
+        got = []
+        traverse_ir.fast_traverse_ir_top_down(
+            ir, [kind], _collect, incidental_actions=acts,
+            parameters={"out": got, "c12_types": (), "c12_attr": None, "c12_mod": None})
+        return got
 
-    def walk_types(tlist, scope, file, with_own):
+    for (v, file, tp, _a) in items(ir_data.EnumValue):
+        values.append({"scope": [file] + list(tp), "name": v.name.name.text,
+                       "loc": L.add(file, v.name.name.source_location)})
+    for (f, file, tp, _a) in items(ir_data.Field):
+        ab = None
+        if f.has_field("abbreviation"):
+            ab = [f.abbreviation.text, L.add(file, f.abbreviation.source_location)]
+        fields.append({"scope": [file] + list(tp), "name": f.name.name.text,
+                       "loc": L.add(file, f.name.name.source_location), "abbr": ab,
+                       "thisLoc": L.add(file, None), "shape": shape_of(f)})
+    for (p, file, tp, _a) in items(ir_data.RuntimeParameter):
+        params.append({"scope": [file] + list(tp), "name": p.name.name.text,
+                       "loc": L.add(file, p.name.name.source_location)})
+
+    def walk_types(tlist, scope, file):
         seen = {}
         for t in tlist:
             nm = t.name.name.text
             seen[nm] = seen.get(nm, 0) + 1
-            if not with_own:
-                types.append({"scope": scope, "name": nm, "loc": L.add(file, t.name.name.source_location)})
-            else:
-                own(t, scope, file)
+            types.append({"scope": scope, "name": nm, "loc": L.add(file, t.name.name.source_location)})
             # children of a duplicate go to a detached _Scope
             child = scope + [nm if seen[nm] == 1 else "%s#%d" % (nm, seen[nm])]
-            walk_types(t.subtype or [], child, file, with_own)
+            walk_types(t.subtype or [], child, file)
 
     for m in ir.module:
         f = m.source_file_name
@@ -151,11 +153,7 @@ def extract(ir):
             imports.append({"module": f, "file": i.file_name.text, "alias": i.local_name.text,
                             "loc": L.add(f, i.local_name.source_location)})
     for m in ir.module:
-        walk_types(m.type, [m.source_file_name], m.source_file_name, False)
-    for m in ir.module:
-        walk_types(m.type, [m.source_file_name], m.source_file_name, True)
-    # the passes run module by module for each kind; own() interleaves kinds, but each list is
-    # filled in the pass's order (types preorder; per type: its own items, then its subtypes)
+        walk_types(m.type, [m.source_file_name], m.source_file_name)
 
     def ctx(m, t, a):
         return {"module": m, "types": list(t), "attr": a, "anon": anon.get(m, [])}
@@ -423,6 +421,8 @@ class FNode:
     def __init__(self, name, owner, kind, ftype=None, abbr=None, array=False, alias=None):
         self.name, self.owner, self.kind = name, owner, kind   # kind: phys | virt | param | anonfield
         self.ftype, self.abbr, self.array, self.alias = ftype, abbr, array, alias
+        self.alias_names = None     # virtual field written as `let v = a.b.c`
+        self.type_names = None      # the dotted type name written for the field
         self.line = None
         self.col = None
         self.abbr_col = None
@@ -518,6 +518,10 @@ class Oracle:
                 for g in f.ftype.fields:
                     a = FNode(g.name, ty, "virt", abbr=g.abbr, alias=[f, g])
                     out.append(a)
+        if ty.kind in ("struct", "bits"):
+            unit = "bytes" if ty.kind == "struct" else "bits"
+            for n in ("$size_in_", "$max_size_in_", "$min_size_in_"):
+                out.append(FNode(n + unit, ty, "virt"))
         return out
 
     def duplicates(self):
@@ -596,36 +600,56 @@ class Oracle:
             kind, node = m[1], m[2]
         return ("abbr-outside" if via_abbr else "ok", self.canon(kind, node))
 
+    def node_of_name(self, ty, names):
+        h = self.head(ty, names[0])
+        if h[0] != "ok":
+            return None
+        kind, node = h[1], h[2]
+        for n in names[1:]:
+            m = self.member_of_scope(kind, node, n)
+            if m[0] != "ok":
+                return None
+            kind, node = m[1], m[2]
+        return node if kind == "type" else None
+
     def final_field(self, f, depth=0):
         """Follow virtual aliases to the field that carries the type.  None = not composite."""
-        if depth > 50:
+        if depth > 30 or not isinstance(f, FNode):
             return None
         if f.kind in ("phys", "anonfield"):
             return f
         if f.kind == "virt" and f.alias:
             return self.final_field(f.alias[-1], depth + 1)
+        if f.kind == "virt" and f.alias_names:
+            res = self.resolve_path(f.owner, f.alias_names, None, depth + 1)
+            if res[0] == "ok":
+                return self.final_field(res[2][-1], depth + 1)
         return None
 
-    def resolve_path(self, ty, names, attr_field=None):
-        """Field path a.b.c → ('ok', [canon…]) | ('error', index of the offending element)."""
+    def resolve_path(self, ty, names, attr_field=None, depth=0):
+        """Field path a.b.c → ('ok', [canon…], [node…]) | (problem, index of the offending element)."""
         h = self.head(ty, names[0], attr_field)
         if h[0] != "ok":
             return (h[0], 0)
         kind, node = h[1], h[2]
         canons = [self.canon(kind, node)]
+        nodes = [node]
         for i, n in enumerate(names[1:], 1):
             if kind not in ("field", "abbr", "this"):
                 return ("not-a-field", i - 1)      # parameter / import alias used as a structure
-            f = self.final_field(node)
-            if f is None or f.array or not isinstance(f.ftype, TNode) or f.ftype.kind == "enum":
-                return ("error", i - 1 if (f is None or f.array) else i)
+            f = self.final_field(node, depth)
+            if f is None or f.array:
+                return ("error", i - 1)
+            if not isinstance(f.ftype, TNode) or f.ftype.kind == "enum":
+                return ("error", i)
             t = f.ftype
             defs = [(k, d) for (k, d) in self.table(t).get(n, []) if k in ("field", "param")]
             if len(defs) != 1:
                 return ("error", i)
             kind, node = defs[0]
             canons.append(node.path())
-        return ("ok", canons)
+            nodes.append(node)
+        return ("ok", canons, nodes)
 
 
 def _lexical_parent(self):
@@ -665,14 +689,16 @@ class Gen:
     type it is written in (the lexical context), so that the oracle can say what it must
     bind to."""
 
-    def __init__(self, r, collide=0.12, max_depth=3):
+    def __init__(self, r, collide=0.12, max_depth=3, bad=0.03):
         self.r = r
         self.collide = collide
+        self.bad = bad              # rate of deliberately wrong references
         self.max_depth = max_depth
         self.mods = []
         self.uses = []      # dict(file, line, col, kind: name|path, names, ty, attr)
         self.feat = {}
         self.anon_count = {}
+        self.scope_types = {}       # id(scope owner) -> names of the types living there
 
     def f(self, k):
         self.feat[k] = self.feat.get(k, 0) + 1
@@ -700,6 +726,7 @@ class Gen:
         r = self.r
         kind = kind or r.choice(["struct", "struct", "struct", "bits", "enum"])
         t = TNode(name, kind, parent, file, inline=inline)
+        self.scope_types.setdefault(id(t.scope_owner()), set()).add(name)
         if kind == "enum":
             used = set()
             for _ in range(r.randint(1, 3)):
@@ -720,7 +747,7 @@ class Gen:
                 k = r.choice(["struct", "bits", "enum"]) if kind == "struct" else r.choice(["bits", "enum"])
                 t.subtypes.append(self.type(nm, t, file, depth + 1, kind=k))
         used_f = set()
-        if r.random() < 0.25:
+        if r.random() < 0.25 and not inline:
             for _ in range(r.randint(1, 2)):
                 nm = self.pick_name(FIELD_POOL, used_f)
                 used_f.add(nm)
@@ -738,14 +765,19 @@ class Gen:
         if r.random() < 0.25:
             abbr = self.pick_name(["a", "b", "c", "xx", "yy", name[0]], used_f)
             used_f.add(abbr)
-        if x < 0.16 and depth < self.max_depth:
+        so = owner
+        while isinstance(so, TNode) and so.inline:
+            so = so.parent
+        clash = camel(name) in self.scope_types.get(id(so), set())
+        if x < 0.16 and depth < self.max_depth and (not clash or r.random() < self.collide):
             kinds = ["enum", "bits"] + (["struct"] if owner.kind == "struct" else [])
             k = r.choice(kinds)
             it = self.type(camel(name), owner, file, depth + 1, kind=k, inline=True)
             owner.subtypes.append(it)
             self.f("inline_" + k)
             return FNode(name, owner, "phys", ftype=it, abbr=abbr)
-        if x < 0.24 and owner.kind == "struct" and depth < self.max_depth:
+        if x < 0.24 and owner.kind == "struct" and depth < self.max_depth and not owner.inline:
+            # (not inside an inline struct: known finding crash:synthetics.py:_add_anonymous_aliases)
             k = self.anon_count.get(file, 0) + 1
             self.anon_count[file] = k
             it = TNode("<anon>", "bits", owner, file, inline=True, anon=k)
@@ -757,7 +789,8 @@ class Gen:
                 if r.random() < 0.2:
                     ab = self.pick_name(["a", "b", "xx", nm[0]], used_f)
                     used_f.add(ab)
-                if r.random() < 0.3 and depth + 1 < self.max_depth:
+                if r.random() < 0.3 and depth + 1 < self.max_depth and \
+                        (camel(nm) not in self.scope_types.get(id(so), set()) or r.random() < self.collide):
                     it2 = self.type(camel(nm), it, file, depth + 2, kind=r.choice(["enum", "bits"]), inline=True)
                     it.subtypes.append(it2)
                     it.fields.append(FNode(nm, it, "phys", ftype=it2, abbr=ab))
@@ -786,19 +819,45 @@ class Gen:
             rec(m.types)
         return out
 
+    def assign_field_types(self):
+        """Second phase, once every type exists: choose the type name each `ref` field is
+        written with, and let the oracle say which type that is (None: not a type)."""
+        orc = Oracle(self.mods, PRELUDE_TYPES)
+        for t in self.all_types():
+            for f in t.fields:
+                if f.ftype == "ref":
+                    f.type_names = self.type_ref_string(t, want=("struct", "bits", "enum"))
+                    res = orc.resolve_name(t, f.type_names)
+                    f.ftype = None
+                    if res[0] == "ok":
+                        node = orc.node_of_name(t, f.type_names)
+                        if isinstance(node, TNode):
+                            f.ftype = node
+
+    def renumber_anon(self):
+        """Anonymous bits are numbered per file in source order."""
+        for m in self.mods:
+            an = sorted([t for t in self.all_types() if t.file == m.file and t.anon is not None],
+                        key=lambda t: t.line)
+            for k, t in enumerate(an, 1):
+                t.anon = k
+                for f in t.parent.fields:
+                    if f.ftype is t:
+                        f.name = "emboss_reserved_anonymous_field_#%d" % k
+
     def type_ref_string(self, ctx_ty, want=None):
         """A dotted type name as a user might write it from inside ctx_ty."""
         r = self.r
         cands = [t for t in self.all_types() if t.anon is None and (want is None or t.kind in want)]
         x = r.random()
-        if not cands or x < 0.08:
+        if not cands or x < self.bad:
             self.f("tref_random")
             return [r.choice(TYPE_POOL)] + ([r.choice(TYPE_POOL)] if r.random() < 0.3 else [])
         t = r.choice(cands)
         full = t.path()[1:]
         if t.file != ctx_ty.file:
             alias = [a for m in self.mods if m.file == ctx_ty.file for (a, tm, _l, _c) in m.imports if tm.file == t.file]
-            if alias and r.random() < 0.9:
+            if alias and r.random() > self.bad:
                 self.f("tref_imported")
                 return [alias[0]] + full
             self.f("tref_foreign_unqualified")
@@ -818,7 +877,7 @@ class Gen:
             enums = [t for t in self.all_types() if t.kind == "enum"]
             if enums:
                 t = r.choice(enums)
-                names = self.qualify(t, ctx_ty) + [r.choice([v.name for v in t.values] + [r.choice(VALUE_POOL)])]
+                names = self.qualify(t, ctx_ty) + [r.choice(VALUE_POOL) if r.random() < self.bad else r.choice([v.name for v in t.values])]
                 self.f("enum_value_ref")
                 self.use_name(e, names, ctx_ty, attr_field)
                 return
@@ -828,7 +887,8 @@ class Gen:
             if ts:
                 t = r.choice(ts)
                 tail = r.choice([f.name for f in t.fields if f.kind != "anonfield"] +
-                                [f.abbr for f in t.fields if f.abbr] + ["$size_in_%s" % ("bytes" if t.kind == "struct" else "bits")])
+                                ([f.abbr for f in t.fields if f.abbr] if r.random() < 0.3 else []) +
+                                ["$size_in_%s" % ("bytes" if t.kind == "struct" else "bits")])
                 self.f("static_member_ref")
                 self.use_name(e, self.qualify(t, ctx_ty) + [tail], ctx_ty, attr_field)
                 return
@@ -852,9 +912,9 @@ class Gen:
         names = []
         x = r.random()
         pool = [f for f in scope_fields if f.name in earlier] or scope_fields
-        if x < 0.08 or not pool:
+        if x < self.bad or not pool:
             names.append(r.choice(FIELD_POOL + ["imp"]))
-        elif x < 0.2 and ctx_ty.params:
+        elif x < 0.15 and ctx_ty.params:
             names.append(r.choice(ctx_ty.params).name)
         else:
             f = r.choice(pool)
@@ -864,13 +924,13 @@ class Gen:
             while r.random() < 0.55:
                 ff = orc.final_field(cur)
                 if ff is None or not isinstance(ff.ftype, TNode) or ff.ftype.kind == "enum":
-                    if r.random() < 0.15:
+                    if r.random() < self.bad:
                         names.append(r.choice(FIELD_POOL))
                     break
                 members = [g for g in orc.fields_of(ff.ftype) if g.kind != "anonfield"]
                 extra = [p.name for p in ff.ftype.params] + [g.abbr for g in members if g.abbr] + \
                         [r.choice(FIELD_POOL)]
-                if members and r.random() < 0.85:
+                if members and r.random() > 2 * self.bad:
                     g = r.choice(members)
                     names.append(g.name)
                     cur = g
@@ -942,17 +1002,26 @@ class Gen:
                 if i and self.r.random() < 0.3:
                     # bare reference to an earlier value of the same enum
                     self.f("bare_value_ref")
-                    self.use_name(e, [self.r.choice([w.name for w in t.values[:i]] + [self.r.choice(VALUE_POOL)])], t)
+                    self.use_name(e, [self.r.choice(VALUE_POOL) if self.r.random() < self.bad else self.r.choice([w.name for w in t.values[:i]])], t)
                     e.w(" + 1")
                 else:
                     e.w(str(i + 1))
                 e.nl()
             return
         if self.r.random() < 0.15 and t.fields:
-            # structure-level attribute: other fields are visible
             e.w(pad + "[requires: ")
-            self.f("struct_requires")
-            self.use_path(e, self.path_string(t, set(f.name for f in t.fields)), t)
+            if t.inline:
+                # attributes in the body of an inline type are attributes of the *field*
+                fld = [f for f in t.parent.fields if f.ftype is t][0]
+                self.f("inline_body_attr")
+                if self.r.random() < 0.7:
+                    self.use_path(e, ["this"], t.parent, attr_field=fld)
+                else:
+                    self.use_path(e, self.path_string(t, set(f.name for f in t.fields)), t.parent, attr_field=fld)
+            else:
+                # structure-level attribute: other fields are visible
+                self.f("struct_requires")
+                self.use_path(e, self.path_string(t, set(f.name for f in t.fields)), t)
             e.w(" == 0]")
             e.nl()
         for s in t.subtypes:
@@ -975,13 +1044,9 @@ class Gen:
             e.w(" = ")
             if r.random() < 0.5 and earlier:
                 names = self.path_string(t, earlier)
-                orc = Oracle(self.mods, PRELUDE_TYPES)
-                res = orc.resolve_path(t, names)
                 self.use_path(e, names, t)
                 self.f("virtual_alias")
-                if res[0] == "ok":
-                    # remember the aliased chain for member lookups through this field
-                    f.alias = self._nodes_of_path(orc, t, names)
+                f.alias_names = names      # member lookups through this field follow the alias
             else:
                 self.expr(e, t, earlier)
                 e.w(" + 1")
@@ -996,11 +1061,13 @@ class Gen:
             e.w("1")
         e.w("]  ")
         if f.kind == "anonfield":
-            e.w("bits:")
+            f.ftype.line = len(e.lines) + 1
+            e.mark("bits", {"kind": "def", "what": "anon", "node": f, "inline": f.ftype})
+            e.w(":")
             e.nl()
             self.emit_body(e, f.ftype, ind + 1)
             return
-        if isinstance(f.ftype, TNode):       # inline type
+        if f.type_names is None and isinstance(f.ftype, TNode):       # inline type
             e.w({"enum": "enum", "bits": "bits", "struct": "struct"}[f.ftype.kind] + "  ")
             e.mark(f.name, {"kind": "def", "what": "field", "node": f, "inline": f.ftype})
             if f.abbr:
@@ -1011,25 +1078,9 @@ class Gen:
             e.nl()
             self.emit_body(e, f.ftype, ind + 1)
             return
-        if f.ftype == "ref":
-            names = self.type_ref_string(t, want=("struct", "bits", "enum"))
-            self.use_name(e, names, t)
-            # what the field's type is, per the oracle (for member lookups)
-            orc = Oracle(self.mods, PRELUDE_TYPES)
-            res = orc.head(t, names[0])
-            ft = None
-            if res[0] == "ok":
-                kind, node = res[1], res[2]
-                okk = True
-                for n in names[1:]:
-                    m = orc.member_of_scope(kind, node, n)
-                    if m[0] != "ok":
-                        okk = False
-                        break
-                    kind, node = m[1], m[2]
-                if okk and kind == "type" and isinstance(node, TNode):
-                    ft = node
-            f.ftype = ft
+        if f.type_names is not None:
+            self.use_name(e, f.type_names, t)
+            ft = f.ftype
             if ft is not None and ft.params and r.random() < 0.8:
                 e.w("(")
                 for i, _p in enumerate(ft.params):
@@ -1041,7 +1092,6 @@ class Gen:
                 e.w("[2]")
         else:
             self.use_name(e, [r.choice(["UInt", "UInt", "Int", "Flag", "Bcd"])], t)
-            f.ftype = None
         e.w("  ")
         e.mark(f.name, {"kind": "def", "what": "field", "node": f})
         if f.abbr:
@@ -1057,10 +1107,10 @@ class Gen:
         r = self.r
         e.w("  " * ind + "[requires: ")
         x = r.random()
-        if x < 0.6:
+        if x > 3 * self.bad:
             self.f("this_ref")
             self.use_path(e, ["this"], t, attr_field=f)
-        elif x < 0.8:
+        elif x > self.bad:
             self.f("sibling_in_field_attr")
             self.use_path(e, [r.choice([g.name for g in t.fields if g.kind != "anonfield"] or ["aa"])], t, attr_field=f)
         else:
@@ -1068,23 +1118,10 @@ class Gen:
         e.w(" == 0]")
         e.nl()
 
-    def _nodes_of_path(self, orc, t, names):
-        h = orc.head(t, names[0])
-        nodes = [h[2]]
-        kind, node = h[1], h[2]
-        for n in names[1:]:
-            ff = orc.final_field(node)
-            defs = [(k, d) for (k, d) in orc.table(ff.ftype).get(n, []) if k in ("field", "param")]
-            kind, node = defs[0]
-            nodes.append(node)
-        if any(not isinstance(x, FNode) for x in nodes):
-            return None
-        return nodes
-
-
 def gen_case(r, size):
     """Returns dict(files, uses, oracle, feat)."""
-    g = Gen(r, collide=r.choice([0.0, 0.03, 0.08, 0.2]), max_depth=r.choice([1, 2, 3, 3]))
+    g = Gen(r, collide=r.choice([0.0, 0.0, 0.01, 0.03, 0.1]), max_depth=r.choice([1, 2, 3, 3]),
+            bad=r.choice([0.0, 0.0, 0.01, 0.03, 0.08]))
     imports = []
     if r.random() < 0.45:
         imp = g.module("imp.emb", r.randint(1, 3))
@@ -1096,12 +1133,13 @@ def gen_case(r, size):
             imports.append((r.choice(["imq", "imq", alias]), imq))
             g.f("import2")
     m = g.module("m.emb", r.randint(1, size), imports=imports)
+    g.assign_field_types()
     files, marks = {}, {}
-    # main module last in g.mods, but text emission order does not matter
     for mod in g.mods:
         e = g.emit_module(mod)
         files[mod.file] = e.text()
         marks[mod.file] = e.marks
+    g.renumber_anon()
     return {"files": files, "marks": marks, "gen": g, "main": m}
 
 
@@ -1121,18 +1159,21 @@ def normalise_anon(path, ranks):
 
 
 def anon_ranks(ir):
-    """(file, N) -> rank in the file, for the compiler's global anonymous counter."""
+    """(file, N) -> rank of the anonymous bits in the file by source position (the compiler's
+    counter N is global and follows the order of parse-tree reductions)."""
     ranks = {}
     for m in ir.module:
-        ns = set()
+        ns = {}
 
         def rec(tl):
             for t in tl:
-                for mm in ANON_RX.finditer(t.name.name.text):
-                    ns.add(int(mm.group(2)))
+                mm = ANON_RX.fullmatch(t.name.name.text)
+                if mm:
+                    p = t.name.name.source_location.start
+                    ns[int(mm.group(2))] = (p.line, p.column)
                 rec(t.subtype or [])
         rec(m.type)
-        for i, n in enumerate(sorted(ns), 1):
+        for i, n in enumerate(sorted(ns, key=lambda n: ns[n]), 1):
             ranks[(m.source_file_name, n)] = i
     return ranks
 
@@ -1260,6 +1301,9 @@ def check_oracle(case, o, chk):
         st("rejected_by_field_resolver")
         for (kind, name, file, loc, _n) in o["s2_errors"]:
             k = (file, loc.split("-")[0])
+            if k not in exp:        # location of a tail reference starts at the dot
+                ln, cl = loc.split("-")[0].split(":")
+                k = (file, "%s:%d" % (ln, int(cl) + 1))
             e = exp.get(k)
             if e is None or e[0] != "path":
                 out.append((None, "%s %r at %s:%s: not a path element the generator wrote" % (kind, name, file, loc)))
@@ -1277,7 +1321,7 @@ def check_oracle(case, o, chk):
             out.append((None, "accepted although the path %r at %s:%s has no valid member at element %d" % (exp[k][1], k[0], k[1], want[1])))
     for (fr, m) in o.get("fref_nodes", []):
         for i, p in enumerate(fr.path):
-            loc = p.source_location
+            loc = p.source_name[0].source_location
             if loc.is_synthetic:
                 continue
             k = (m, str(loc).split("-")[0])
